@@ -35,7 +35,7 @@ def run_one(prop: str, patch: str, tier: str = "quick") -> tuple[bool, str]:
             return False, f"patch does not apply: {p.stdout[-300:]}{p.stderr[-300:]}"
         env = dict(os.environ, OPV_REPO=tmp, OPV_JOBS=os.environ.get("OPV_JOBS", "8"))
         env.pop("OPV_EXTRA_FINDINGS", None)
-        c = subprocess.run([sys.executable, "-m", "opv.cli", "check", prop, "--tier", tier], cwd=VERIF, env=env,
+        c = subprocess.run(["/venv/bin/python", "-m", "opv.cli", "check", prop, "--tier", tier], cwd=VERIF, env=env,
                            capture_output=True, text=True, timeout=3600)
         fired = c.returncode == 1 and f"VIOLATION property={prop}" in c.stdout
         tail = [ln for ln in c.stdout.splitlines() if ln.startswith(("  witness", "INCONCLUSIVE", "HELD"))][:2]
